@@ -439,12 +439,16 @@ impl<'a> Gen<'a> {
                 }
             }
             if lo == i64::MIN { lo = MINIMUM_VERIFIED_ALLOCATION_TERM; hi = lo + 1000; }
+            // sector lifetime (expiry - epoch, at a non-zero epoch) inside the common term range, or
+            // on / one off its two boundaries term_min and term_max
             let life = match self.r.below(100) {
-                0..=79 => if lo <= hi { self.r.range(lo, hi) } else { lo },
-                80..=84 => lo,
-                85..=89 => hi,
-                90..=94 => lo - 1,
-                _ => hi + 1,
+                0..=61 => if lo <= hi { self.r.range(lo, hi) } else { lo },
+                62..=69 => lo,
+                70..=79 => lo - 1,
+                80..=83 => lo + 1,
+                84..=89 => hi,
+                90..=96 => hi + 1,
+                _ => hi - 1,
             };
             gs.push(SGroup { sector: 1 + self.r.below(4), expiry: epoch + life, claims });
         }
